@@ -270,6 +270,9 @@ func panicKind(p any) string {
 }
 
 func (c06) RunCase(c *core.Ctx) {
+	if c.Case%97 == 23 && !w10(c, "C06") {
+		return
+	}
 	a, b, cc, d, _ := c06Counts(c.Tier)
 	i := c.Case
 	switch {
